@@ -29,6 +29,7 @@ CONSTANTS
   ReadCfgs <- ReadCfgsV
   FlushCfgs <- FlushCfgsV
   Need = 2
+  AllChunks = {1, 2}
   MaxRetry = 10
   MaxBacklog = %(maxbacklog)d
   SCap = %(scap)d
@@ -104,7 +105,7 @@ def configs(tier):
         return [quick]
     big = mkrun('t', ['read', 'flush'], [
         rcfg(3, [1], [1, 2], 2, ALLEV, 1, [0]),
-        rcfg(4, [1, 2], [1, 2], 2, ALLEV, 2, [0, 1]),
+        rcfg(4, [1, 2], [1, 2], 2, ALLEV, 2, [0]),
     ], [
         fcfg(3, 1, 1, 2, 2),
         fcfg(4, 3, 2, 1, 1),
@@ -269,11 +270,24 @@ def greedy(scheds, paths, b, rng):
     return [scheds[i] for i in chosen]
 
 
+KNOWN_ACTIONS = set('''RStart R_a1 R_a2 R_b R_bm1 R_bm2 R_b2 R_selTok R_selCls R_selTmr R_m1 R_m2 R_c1 R_c2 R_c3 ArrBegin ArrAdd
+ArrNotify HalfClose CloseCAS CloseFin SessNotify SessLambda TimerFire RTick FStart FAttempt FWaitTimer FWaitDeadline FWaitClosed
+Consume FHalfClose FSessClose FTick AStart ASelStream ASelShut NewStream ASessClose SStart SEnq SShut STimeout SAck STimerFire
+LoopTake LoopWritten LoopWriteFails LoopExit KStart KSend KShut SUnblock SSessClose SSessLambda STick IStart PeerReply PeerClose
+GoDone GoFail IResult ITimeout IJoin ITick'''.split())
 MUST = [
-    ('timer-reuse', 2, ['RStart', 'R_a1', 'R_a2', 'R_b', 'ArrBegin(2)', 'ArrAdd', 'ArrNotify', 'R_selTok', 'RTick', 'TimerFire',
-                        'R_m1', 'R_m2', 'RStart', 'R_a1', 'R_a2', 'R_b']),
-    ('timer-reuse-close-arm', 2, ['RStart', 'R_a1', 'R_a2', 'R_b', 'HalfClose', 'R_selCls', 'RTick', 'TimerFire', 'R_c1', 'R_c2',
-                                  'R_c3', 'RStart', 'R_a1', 'R_a2', 'R_b', 'R_bm1', 'R_bm2', 'R_b2']),
+    # the read timer fires while the reader is outside the select and the read returns by another arm - the next read must
+    # not see a stale timer value
+    ('timer-reuse', 'read', 2, ['RStart', 'R_a1', 'R_a2', 'R_b', 'ArrBegin(2)', 'ArrAdd', 'ArrNotify', 'R_selTok', 'RTick', 'TimerFire',
+                                'R_m1', 'R_m2', 'RStart', 'R_a1', 'R_a2', 'R_b']),
+    ('timer-reuse-close-arm', 'read', 2, ['RStart', 'R_a1', 'R_a2', 'R_b', 'HalfClose', 'R_selCls', 'RTick', 'TimerFire', 'R_c1',
+                                          'R_c2', 'R_c3', 'RStart', 'R_a1', 'R_a2', 'R_b', 'R_bm1', 'R_bm2', 'R_b2']),
+    # the queue stays full and nothing else happens: Flush gives up after attempt 0 + 10 retries
+    ('flush-queue-stays-full', 'flush', 1, ['FStart'] + ['FAttempt', 'FWaitTimer'] * 10 + ['FAttempt']),
+    # the send loop is stuck in a blocked write: waitForSend times out waiting for the result / for room in sendCh
+    ('send-timeout-waiting-result', 'send', 0, ['SStart', 'SEnq', 'STick', 'STimerFire', 'STimeout']),
+    ('send-timeout-waiting-room', 'send', 0, ['KStart', 'KSend', 'SStart', 'STick', 'STimerFire', 'STimeout']),
+    ('send-shutdown-waiting-room', 'send', 0, ['KStart', 'KSend', 'SStart', 'SSessClose', 'SShut']),
 ]
 
 
@@ -281,6 +295,8 @@ def spec_path(g, mode, labels, cid=None):
     """follow the action labels from the initial state of `mode`; None if it is not a path of the graph"""
     cur = [n for n in g.inits if g.state(n)['mode'] == mode and (cid is None or (g.proj(n)['cid'] == cid and
                                                                                   g.state(n).get('tok', 0) == 0))]
+    if mode != 'read':
+        cur = [n for n in g.inits if g.state(n)['mode'] == mode and (not cid or g.proj(n)['cid'] == cid)]
     if not cur:
         return None
     n = cur[0]
@@ -394,10 +410,14 @@ def run(prop, tier, seed, replay=None):
         return ck.finish()
     ck.cov['exhaustive'] = True
 
-    budget = {'read': 60, 'flush': 25, 'accept': 40, 'send': 40, 'init': 14} if ck.tier == 'quick' else \
-        {'read': 1500, 'flush': 300, 'accept': 100, 'send': 400, 'init': 60}
+    budget = {'read': 60, 'flush': 25, 'accept': 40, 'send': 40, 'init': 30} if ck.tier == 'quick' else \
+        {'read': 350, 'flush': 120, 'accept': 100, 'send': 300, 'init': 63}
     allsched, bygraph = [], {}
     for g in graphs:
+        unknown = {label(l)[0] for (_s, _d, l) in g.edges} - KNOWN_ACTIONS
+        if unknown:
+            ck.inconc('the state graph has transitions the harness has no step for: %s' % sorted(unknown))
+            return ck.finish()
         sc, totals = schedules_from(g, rng, budget)
         ck.log('%s: cover paths %s, %d replayed' % (g.cfg['name'], totals, len(sc)))
         ck.cov.setdefault('cover_paths', {})[g.cfg['name']] = {'total_per_configuration': totals, 'replayed': len(sc)}
@@ -407,17 +427,19 @@ def run(prop, tier, seed, replay=None):
     # must-replay behaviours (each verified to be a path of the TLC graph): the read timer fires while the reader is
     # outside the select and the read returns by the data arm - the next read must not see a stale timer value
     gq = graphs[0]
-    for nm, cid, lbls in MUST:
-        end = spec_path(gq, 'read', lbls, cid)
+    c = cfgs[0]['consts']
+    for nm, mode, cid, lbls in MUST:
+        end = spec_path(gq, mode, lbls, cid)
         if end is None:
             ck.notes.append('must-replay behaviour %s is not a behaviour of the specification any more' % nm)
             continue
-        init = [n for n in gq.inits if gq.state(n)['mode'] == 'read' and gq.proj(n)['cid'] == cid and gq.state(n)['tok'] == 0][0]
-        st = gq.state(init)
-        sc = {'name': 'must-' + nm, 'mode': 'read', 'cid': cid, 'steps': [{'a': label(l)[0], 'k': label(l)[1]} for l in lbls],
-              'init_tok': 0, 'need': 2, 'deadlines': list(st['rc']['dl']), 'peer_died': False, 'eager': False}
+        st = gq.state(end)
+        sc = {'name': 'must-' + nm, 'mode': mode, 'cid': cid, 'steps': [{'a': label(l)[0], 'k': label(l)[1]} for l in lbls],
+              'init_tok': 0, 'need': 2, 'deadlines': list(st['rc']['dl']), 'qcap': st['fc']['qcap'], 'preload': st['fc']['preload'],
+              'wdeadline': st['fc']['wdl'], 'scap': c['scap'], 'spre': c['spre'], 'cwt': c['cwt'], 'peer_died': False, 'eager': False}
         allsched.append(sc)
         bygraph[sc['name']] = (gq, sc)
+    ck.cov['must_replay_behaviours'] = [m[0] for m in MUST]
     # regression witness of the fixed finding wakeup-bare-send (commit 4dc1e7e): the behaviour of the specification that
     # used to end with the Flush stuck in the bare send; it must be a path of the TLC graph, and on the real code the
     # Flush must now come back with the shutdown error
@@ -479,6 +501,7 @@ def handle(ck, r, bygraph, known):
     ck.cov['releases_observed'] = r['releases']
     ck.cov['max_release_latency_us'] = r['max_release_us']
     ck.cov['returns_by_result'] = r['returns']
+    ck.cov['spec_actions_executed_on_real_code'] = r.get('actions', {})
     ck.cov['timing_retries'] = r['timing_retries']
     ck.cov['spec_drift'] = bool(drift)
     for d in drift[:5]:
